@@ -2,7 +2,7 @@ package c05
 
 // C05 — `git lfs prune` never deletes an object that is still needed or not yet pushed.
 //
-// E2E exploration on the real git-lfs binary: six exhaustive products (structural, dates, configuration, filters =
+// E2E exploration on the real git-lfs binary: eight exhaustive products (zones and renames: c05_zones_verif_test.go; structural, dates, configuration, filters =
 // lfs.fetchinclude x lfs.fetchexclude, remotes = two remotes with their own LFS servers x lfs.pruneremotetocheck,
 // refkinds = which kind of ref makes a commit a recent ref x lfs.fetchrecentremoterefs) of
 // tiny real repositories x flags x retention windows x server states; oracle = reference retention set computed by
@@ -133,6 +133,15 @@ func c05Deviations(spec worldSpec, p caseParams) []deviation {
 	if p.NoRR {
 		ds = append(ds, deviation{"fetchrecentremoterefs=false", func(s *worldSpec, q *caseParams) { q.NoRR = true }})
 	}
+	// product zones: nominal = commit dates written in UTC, prune run in UTC
+	if spec.Zone != "" && spec.Zone != "+0000" {
+		z := spec.Zone
+		ds = append(ds, deviation{"commit-zone=" + z, func(s *worldSpec, q *caseParams) { s.Zone = z }})
+	}
+	if p.TZ != "" {
+		tz := p.TZ
+		ds = append(ds, deviation{"TZ=" + tz, func(s *worldSpec, q *caseParams) { q.TZ = tz }})
+	}
 	return ds
 }
 
@@ -157,7 +166,10 @@ func c05Causes(spec worldSpec, p caseParams, o *evalOut) (map[rawViol]string, st
 	halting := p.Verify == 1 || p.Verify == 3
 	variant1 := func(sel []deviation, noVerify bool) (map[[2]string]bool, string) {
 		s, q := spec, p
-		s.Attr, q.Cfgs, q.Exc, q.Inc, q.PR, q.Track, q.NoRR = 0, nil, "", "", 0, 0, false
+		s.Attr, q.Cfgs, q.Exc, q.Inc, q.PR, q.Track, q.NoRR, q.TZ = 0, nil, "", "", 0, 0, false, ""
+		if s.Zone != "" {
+			s.Zone = "+0000"
+		}
 		if noVerify {
 			q.Verify, q.Server, q.Hold = 0, 0, 0
 		}
@@ -301,6 +313,16 @@ func c05Case(spec worldSpec, p caseParams, confirm bool) vx.Result {
 		}
 		r.Outcome += "|ref=" + spec.Ref + ":named-version-" + fate
 	}
+	if spec.Hist == "XY" {
+		r.Outcome += fmt.Sprintf("|index-op=%s,fetchexclude=%q", spec.Local, p.Exc)
+	}
+	if spec.Zone != "" {
+		tz := p.TZ
+		if tz == "" {
+			tz = "UTC"
+		}
+		r.Outcome += fmt.Sprintf("|commit-zone=%s,prune-TZ=%s,c1/c2/tip-age-hours=%v,window=%dd", spec.Zone, tz, spec.AgeH, p.C+p.O)
+	}
 	dem := wd.facts.demands(p)
 	demanded := map[string][]string{}
 	for oid, ds := range dem {
@@ -315,8 +337,8 @@ func c05Case(spec worldSpec, p caseParams, confirm bool) vx.Result {
 			part = append(part, n+"="+strings.Join(cl, ","))
 		}
 		sort.Strings(part)
-		r.NonTrivial = []string{fmt.Sprintf("%016x", vx.Hash64(spec.Hist, spec.Head, spec.Push, spec.Local, fmt.Sprint(spec.Attr, spec.Flavor, spec.Ref),
-			fmt.Sprint(p.Mode, p.Dry, p.Verify, p.Server, p.Exc, p.Cfgs, p.Inc, p.Two, p.PR, p.Track, p.Hold, p.NoRR), strings.Join(part, ";")))}
+		r.NonTrivial = []string{fmt.Sprintf("%016x", vx.Hash64(spec.Hist, spec.Head, spec.Push, spec.Local, fmt.Sprint(spec.Attr, spec.Flavor, spec.Ref)+spec.Zone,
+			fmt.Sprint(p.Mode, p.Dry, p.Verify, p.Server, p.Exc, p.Cfgs, p.Inc, p.Two, p.PR, p.Track, p.Hold, p.NoRR)+p.TZ, strings.Join(part, ";")))}
 	}
 	var store []string
 	for oid := range gitx.StoreOids(wd.lfsdir) {
@@ -706,7 +728,7 @@ func c05Products(thorough bool) []product {
 			p.Mode, p.Dry, p.Verify = f.Mode, f.Dry, f.Verify
 			return w, p
 		}}
-	return []product{structural, dates, config, filters, remotes, refkinds}
+	return []product{structural, dates, config, filters, remotes, refkinds, c05Zones(thorough), c05Renames(thorough)}
 }
 
 func TestVerifC05(t *testing.T) {
@@ -722,13 +744,16 @@ func TestVerifC05(t *testing.T) {
 		c.Tier = rf.Tier // the choice vector is relative to the bounds of the tier that produced it
 	}
 	prods := c05Products(c.Thorough())
-	c.Rule = "six exhaustive products, one real `git lfs prune` per case: (structural) history shape x HEAD position x push state x stash/worktree/index state x date profile " +
+	c.Rule = "eight exhaustive products, one real `git lfs prune` per case: (structural) history shape x HEAD position x push state x stash/worktree/index state x date profile " +
 		"x flag set x server state x window; (dates) every parent-not-newer age vector over the stated day set x every (refsdays,commitsdays,offsetdays) window; " +
 		"(config) rich worlds holding one object per retention class x attribute spelling x ambient git config (none, singles; thorough: pairs) x flags x fetchexclude; " +
 		"(filters) rich worlds with LFS files in a directory and in the root, one object per retention class x lfs.fetchinclude pattern x lfs.fetchexclude pattern (unset, everything, one directory, one file by path, one file name) x flags incl. --verify-remote halting/continuing; " +
 		"(remotes) remotes origin and upstream with their own push states and their own LFS servers x lfs.pruneremotetocheck {unset, origin, upstream} x default-remote setting x flags x which server holds which prunable candidate (uniform: both / origin only / upstream only / neither; rotations over the candidates); " +
 		"(refkinds) a pushed linear history whose middle commit c2 is named by exactly one ref of the enumerated kind (none, local branch, remote-tracking branch made by a real push, lightweight tag, annotated tag dated like c2; thorough: + refs/pull/1/head) " +
-		"x age of c2 (inside / outside the window; thorough: also a branch tip OLDER than c2) x lfs.fetchrecentremoterefs {unset, false} x (refsdays, commitsdays, offsetdays) window (thorough: x {none, --recent}). " +
+		"x age of c2 (inside / outside the window; thorough: also a branch tip OLDER than c2) x lfs.fetchrecentremoterefs {unset, false} x (refsdays, commitsdays, offsetdays) window (thorough: x {none, --recent}); " +
+		"(zones) a pushed linear history c1 - c2 - c3 (every commit replaces the file) whose author/committer dates are written with the UTC offset {+0000, +0900, -0800} x positions of c1 and c2 in whole hours relative to the lower edge " +
+		"of the recent-commits window (tip commit date minus commitsdays+offsetdays, an absolute instant): far outside, 2 h / 1 h outside, 1 h / 2 h inside x window length {1, 3} days x every split of it into (commitsdays, offsetdays) x refsdays {0, 7} x TZ of the prune process {UTC, Asia/Tokyo}; " +
+		"(renames) pushed old history with LFS files in the directories x/ and y/ x staged, uncommitted index operation {none, git mv inside x/, into x/sub/, from x/ to y/, from y/ to x/, both at once, mv + new content, copy x->y, copy y->x} x lfs.fetchexclude {unset, x, y} x {none, --recent, --force, --dry-run}. " +
 		"A case is non-trivial when the local store holds at least one object the model requires to survive and at least one it does not; two cases are the same retention problem (counted once in distinct_nontrivial) " +
 		"when they agree on history shape/HEAD/push/local state/attribute spelling, ref kind, flags, server state(s), ambient config, fetchexclude, fetchinclude, prune remote, default-remote setting, lfs.fetchrecentremoterefs and on the set of clauses protecting each object (so dates and windows only count through the partition they induce)"
 	c.Assumptions = []string{
@@ -743,6 +768,8 @@ func TestVerifC05(t *testing.T) {
 		"a stash protects what its WIP/index/untracked commits add on top of the stash's base commit",
 		"recent ref (git-lfs-config(5) lfs.fetchrecentrefsdays: 'refs which have commits within N days of the current date. Only local refs are included unless lfs.fetchrecentremoterefs is true'; git-lfs-prune(1): N = refsdays+offsetdays, refsdays>0) = a local branch, a tag, or - unless lfs.fetchrecentremoterefs=false - a remote-tracking branch, whose commit is younger than N days (the date of a ref is the commit date of the commit it names, also when the branch tip in front of it is older); an annotated tag is demanded only when the tag's own date is inside the window too; nothing is demanded for refs outside refs/heads, refs/tags, refs/remotes (the documentation is silent; refs/pull/1/head is enumerated and only observed)",
 		"recent commit = ancestor of HEAD or of a recent ref, younger than that tip minus (commitsdays+offsetdays) (commitsdays>0); worlds whose dates are not monotonic (product refkinds, tip older than the named commit) are run with commitsdays=0 only",
+		"product zones: the recent-commits window is read as the documentation states it (days before the commit date of the tip: absolute instants, independent of the UTC offset the dates were recorded with and of the TZ of the machine that runs prune); its lower edge is relative to the tip's commit date, not to the current time, so commits 1 h on either side of it are compared without any dependence on when the check runs; every other comparison keeps the >= 6 h margin",
+		"product renames: the index retains what the index references AT ITS CURRENT PATH (a staged rename or copy is an index entry at the destination path); an entry whose current path lfs.fetchexclude matches is protected only by the stash/unpushed clauses, the HEAD tree protects the source path as long as the rename is not committed; x and y are matched as gitignore(5) directory names",
 		"remote refs are updated by real `git push` with GIT_LFS_SKIP_PUSH=1; what the LFS server holds is chosen by the harness (fakelfs)",
 	}
 	for _, p := range prods {
@@ -774,9 +801,9 @@ func TestVerifC05(t *testing.T) {
 	}
 	deadline := c.DeadlineAfter(300*time.Second, 22*time.Minute)
 	// the products run side by side, sharing the cores roughly in proportion to their size
-	share := map[string]int{"structural": 12, "dates": 6, "config": 6, "filters": 3, "remotes": 5, "refkinds": 2}
+	share := map[string]int{"structural": 12, "dates": 6, "config": 6, "filters": 3, "remotes": 5, "refkinds": 2, "zones": 3, "renames": 2}
 	if c.Thorough() {
-		share = map[string]int{"structural": 13, "dates": 7, "config": 4, "filters": 3, "remotes": 5, "refkinds": 3}
+		share = map[string]int{"structural": 13, "dates": 7, "config": 4, "filters": 3, "remotes": 5, "refkinds": 3, "zones": 3, "renames": 2}
 	}
 	var parts []vx.Part
 	var wg sync.WaitGroup
